@@ -100,6 +100,29 @@ func vCover(label string) { vCovers = append(vCovers, label) }
 func vNote(label string)  {}
 func vYield()             {}
 func vSymbolic() bool     { return false }
+func vIte(c bool, a, b int) int {
+	if c {
+		return a
+	}
+	return b
+}
+func vAnd(a, b bool) bool { return a && b }
+func vOr(a, b bool) bool  { return a || b }
+func vEqBytes(a, b []byte) bool {
+	if len(a) != len(b) {
+		return false
+	}
+	for i := range a {
+		if a[i] != b[i] {
+			return false
+		}
+	}
+	return true
+}
+
+var vThoroughFlag bool
+
+func vThorough() bool { return vThoroughFlag }
 '''
 
 RT_TEST_GO = r'''package %(pkg)s
@@ -154,6 +177,7 @@ func vRun(f func() bool, tape []uint64) (res string) {
 }
 
 func TestVerifReplay(t *testing.T) {
+	vThoroughFlag = os.Getenv("VERIF_TIER") == "thorough"
 	data, err := os.ReadFile(os.Getenv("VERIF_TAPES"))
 	if err != nil {
 		t.Fatal(err)
@@ -190,7 +214,8 @@ def go_pkg_name(path):
 class Workspace:
     """temporary overlay tree: harness files + generated runtime files, mirrored onto /repo"""
 
-    def __init__(self, harness_files):
+    def __init__(self, harness_files, tier="quick"):
+        self.tier = tier
         self.dir = tempfile.mkdtemp(prefix="verif_ws_")
         self.pkgdirs = {}  # rel pkg dir -> (pkgname, [harness names])
         hroot = os.path.join(VERIF, "harness")
@@ -214,7 +239,7 @@ class Workspace:
 
     def dump(self, deny=None, extra_args=()):
         out = os.path.join(self.dir, "dump.json")
-        pats = ["./" + pd for pd in self.pkgdirs]
+        pats = ["./" + pd if pd else "." for pd in self.pkgdirs]
         cmd = [BIN, "-repo", REPO, "-overlay", self.ov, "-o", out]
         if deny:
             cmd += ["-deny", ",".join(deny)]
@@ -232,7 +257,7 @@ class Workspace:
         pkg, names = self.pkgdirs[pd]
         tdir = os.path.join(self.dir, "native")
         os.makedirs(tdir, exist_ok=True)
-        testfile = os.path.join(tdir, pd.replace("/", "_") + "_rt_test.go")
+        testfile = os.path.join(tdir, (pd.replace("/", "_") or "root") + "_rt_test.go")
         with open(testfile, "w") as f:
             f.write(RT_TEST_GO % {"pkg": pkg, "table": "".join('\t"%s": %s,\n' % (n, n) for n in names)})
         rep = {}
@@ -242,7 +267,7 @@ class Workspace:
                     rep[os.path.join(REPO, pd, fn)] = os.path.join(root, fn)
             break
         rep[os.path.join(REPO, pd, "zz_verif_rt_test.go")] = testfile
-        ovf = os.path.join(tdir, pd.replace("/", "_") + "_overlay.json")
+        ovf = os.path.join(tdir, (pd.replace("/", "_") or "root") + "_overlay.json")
         with open(ovf, "w") as f:
             json.dump({"Replace": rep}, f)
         tapes = os.path.join(tdir, "tapes.json")
@@ -251,8 +276,8 @@ class Workspace:
             json.dump([{"h": h, "tape": t} for h, t in jobs], f)
         if os.path.exists(outp):
             os.unlink(outp)
-        env = dict(GOENV, VERIF_TAPES=tapes, VERIF_OUT=outp)
-        r = subprocess.run(["go", "test", "-vet=off", "-count=1", "-run", "^TestVerifReplay$", "-overlay", ovf, "./" + pd],
+        env = dict(GOENV, VERIF_TAPES=tapes, VERIF_OUT=outp, VERIF_TIER=self.tier)
+        r = subprocess.run(["go", "test", "-vet=off", "-count=1", "-run", "^TestVerifReplay$", "-overlay", ovf, "./" + pd if pd else "."],
                            cwd=REPO, env=env, capture_output=True, text=True, timeout=timeout)
         if not os.path.exists(outp):
             return None, r.stdout[-3000:] + r.stderr[-3000:]
@@ -367,6 +392,7 @@ class HarnessResult:
         self.sched = 0
         self.wall = 0.0
         self.truncated = False
+        self.stopped_early = False
         self.blocked = []
 
     def add(self, st):
@@ -415,9 +441,11 @@ def explore(prog, init, fid, opts, pool, max_paths=200000, deadline=None):
             for st in out:
                 res.add(st)
             work.extend(leftover)
-        if res.paths >= max_paths or (deadline and time.time() > deadline):
-            if work or pending:
+        nviol = len(res.violations) + len(res.panics) + len(res.blocked)
+        if res.paths >= max_paths or (deadline and time.time() > deadline) or nviol >= opts.get("stop_after_violations", 40):
+            if (work or pending) and nviol < opts.get("stop_after_violations", 40):
                 res.truncated = True
+            res.stopped_early = bool(work or pending)
             for p in pending:
                 p.cancel()
             cf.wait(pending)
